@@ -974,3 +974,86 @@ def chunk_source(fn_node, name: str):
                 if a and a == b:
                     return a, "pieces-or-whole:not " + norm(defs[0].test)
     return None
+
+
+# what the width-like parameters of the text-shaping API count: terminal cells or characters
+TEXT_PARAM_UNITS = {
+    "truncate": {"max_width": "cells"},
+    "align": {"width": "cells"},
+    "wrap": {"width": "cells"},
+    "rstrip_end": {"size": "cells"},
+    "set_length": {"new_length": "chars"},
+    "right_crop": {"amount": "chars"},
+    "justify": {"width": "cells"},
+}
+TEXT_PARAM_ORDER = {
+    "truncate": ["max_width"], "align": [None, "width"], "wrap": [None, "width"], "rstrip_end": ["size"], "set_length": ["new_length"],
+    "right_crop": ["amount"], "justify": [None, "width"],
+}
+
+
+def units_calls_check(ctx, f, method_name: str) -> int:
+    """Units across calls: inside f (one of the text-shaping methods; its own width parameter seeded from TEXT_PARAM_UNITS) every
+    argument handed to another text-shaping method must count what that parameter counts - a character count (len(..), a `chars`
+    parameter) passed as a width in cells, or a cell width passed where characters are removed / kept, crops or pads text with
+    double-width characters at the wrong place.  Returns the number of call arguments examined."""
+    import ast as _ast
+    from ..astutil import alias_map, expand_alias
+    from ..index import norm, short, walk_local
+    aliases = alias_map(f.node)
+    unit = dict(TEXT_PARAM_UNITS.get(method_name, {}))
+
+    def u(e):
+        if isinstance(e, _ast.Constant):
+            return "const"
+        if isinstance(e, _ast.Name):
+            return unit.get(e.id)
+        if isinstance(e, _ast.Attribute) and e.attr in ("cell_len", "cell_length"):
+            return "cells"
+        if isinstance(e, _ast.Call):
+            cn = norm(expand_alias(e.func, aliases))
+            if cn.split(".")[-1] in ("cell_len", "get_character_cell_size"):
+                return "cells"
+            if cn == "len":
+                return "chars"
+            if cn in ("min", "max") and e.args:
+                us = {u(a) for a in e.args} - {"const", None}
+                return us.pop() if len(us) == 1 else ("mixed" if len(us) > 1 else None)
+            return None
+        if isinstance(e, _ast.BinOp) and isinstance(e.op, (_ast.Add, _ast.Sub)):
+            us = {u(e.left), u(e.right)} - {"const", None}
+            return us.pop() if len(us) == 1 else ("mixed" if len(us) == 2 else None)
+        if isinstance(e, _ast.IfExp):
+            us = {u(e.body), u(e.orelse)} - {"const", None}
+            return us.pop() if len(us) == 1 else ("mixed" if len(us) == 2 else None)
+        return None
+    for _ in range(3):
+        for x in walk_local(f.node):
+            if isinstance(x, _ast.Assign) and len(x.targets) == 1 and isinstance(x.targets[0], _ast.Name):
+                uu = u(x.value)
+                if uu in ("cells", "chars") and unit.get(x.targets[0].id) in (None, uu):
+                    unit[x.targets[0].id] = uu
+    n = 0
+    for c in walk_local(f.node):
+        if not (isinstance(c, _ast.Call) and isinstance(c.func, _ast.Attribute) and c.func.attr in TEXT_PARAM_UNITS):
+            continue
+        if isinstance(c.func.value, _ast.Name) and c.func.value.id in ("console", "options", "Segment", "cls", "str"):
+            continue
+        callee = c.func.attr
+        order = TEXT_PARAM_ORDER[callee]
+        bound = {}
+        for i, a in enumerate(c.args):
+            if i < len(order) and order[i]:
+                bound[order[i]] = a
+        for k in c.keywords:
+            if k.arg in TEXT_PARAM_UNITS[callee]:
+                bound[k.arg] = k.value
+        for pname, a in bound.items():
+            want = TEXT_PARAM_UNITS[callee][pname]
+            got = u(a)
+            n += 1
+            ctx.check(got in (None, "const", want), f.fq, short(c), f"{f.module.relpath}:{c.lineno}",
+                      f"`{short(c)}`: `{norm(a)}` ({got or 'unitless'}) is passed as {callee}({pname}), counted in {want}",
+                      f"`{short(c)}` in {f.qualname} passes `{norm(a)}`, a count of {got}, as `{pname}` of {callee}(), which counts {want}: text with double-width or zero-width characters is cropped / padded at the wrong place (and {callee}() applies its own overflow rules)")
+    # and the function's own comparisons of its width parameter
+    return n
